@@ -5,6 +5,7 @@ import (
 	"crypto/ecdsa"
 	"encoding/json"
 	"fmt"
+	"io"
 	"math/big"
 	"strings"
 
@@ -670,6 +671,11 @@ func c20Run(c core.Case, env *core.Env) core.Result {
 	fixedMsg := big.NewInt(424242)
 	fixedSel := firstK(t + 1)
 	ops := c.P.Int("k")
+	// one quorum object per signer set for the whole history (an application builds its PeerContext once), and a replayable
+	// source behind Parameters.SetPartialKeyRand (a keygen knob that signing has no business reading): with both, every
+	// session must still succeed, leave the key alone and use a fresh nonce
+	ctxCache := map[string]*tss.PeerContext{}
+	pkRand := func(i int) io.Reader { return &detReader{seed: []byte(fmt.Sprintf("partial-key-rand/%d", i))} }
 	for op := 0; op < ops; op++ {
 		kind := []string{"reload", "sign", "sign", "sign-same", "sign-offset", "abort-silence", "abort-tamper", "sign-reloaded"}[rg.Intn(8)]
 		if op == 0 {
@@ -711,7 +717,7 @@ func c20Run(c core.Case, env *core.Env) core.Result {
 		case "sign", "sign-same", "sign-reloaded":
 			// the signing constructors receive the stored structs themselves (by value): that is how an application uses them
 			in := src.Subset(sel)
-			w := in.SignWorld(env.Seed+int64(op), t, msg, sim.SignOpts{Shuffle: rg.Intn(2) == 0})
+			w := in.SignWorld(env.Seed+int64(op), t, msg, sim.SignOpts{Shuffle: rg.Intn(2) == 0, CtxCache: ctxCache, PartialKeyRand: pkRand})
 			nonceTap(w, nonces)
 			w.Run(sim.StartsThen(schedByName([]string{"fifo", "random", "lifo"}[rg.Intn(3)], w)), nil)
 			outs, missing := sigOuts(w)
@@ -763,7 +769,7 @@ func c20Run(c core.Case, env *core.Env) core.Result {
 				r.Count("shallow_copy_adjustments", 1)
 			}
 			adjusted := snapshotECDSA(session.d)
-			w := sim.ECDSASigning(env.Seed+int64(op), session.d, t, msg, sim.SignOpts{KDD: delta})
+			w := sim.ECDSASigning(env.Seed+int64(op), session.d, t, msg, sim.SignOpts{KDD: delta, CtxCache: ctxCache, PartialKeyRand: pkRand})
 			nonceTap(w, nonces)
 			w.Run(sim.StartsThen(sim.FIFO), nil)
 			outs, missing := sigOuts(w)
@@ -780,7 +786,7 @@ func c20Run(c core.Case, env *core.Env) core.Result {
 			r.Count("sessions_completed", 1)
 		case "abort-silence", "abort-tamper":
 			in := src.Subset(sel)
-			w := in.SignWorld(env.Seed+int64(op), t, msg, sim.SignOpts{})
+			w := in.SignWorld(env.Seed+int64(op), t, msg, sim.SignOpts{CtxCache: ctxCache, PartialKeyRand: pkRand})
 			nonceTap(w, nonces)
 			if kind == "abort-silence" {
 				who, at := rg.Intn(len(w.Nodes)), 2+rg.Intn(10*len(w.Nodes))
